@@ -14,6 +14,8 @@ import (
 	"sort"
 	"sync"
 	"syscall"
+
+	"github.com/hydraide/hydraide/app/verifrt/vos"
 )
 
 type ReplayInput struct {
@@ -209,8 +211,16 @@ func (h *H) PutFile(path string, data []byte) {
 	if err := os.WriteFile(path, data, 0o644); err != nil {
 		panic(err)
 	}
+	p := filepath.Clean(path)
+	vos.LogOp(vos.Op{Kind: "create", Path: p})
+	vos.LogOp(vos.Op{Kind: "write", Path: p, Off: 0, Data: append([]byte(nil), data...)})
+	vos.LogOp(vos.Op{Kind: "sync", Path: p})
 }
-func (h *H) RemoveFile(path string) { os.Remove(path) }
+func (h *H) RemoveFile(path string) {
+	if os.Remove(path) == nil {
+		vos.LogOp(vos.Op{Kind: "remove", Path: filepath.Clean(path)})
+	}
+}
 func (h *H) ListFiles(dir string) []string {
 	var out []string
 	filepath.Walk(dir, func(p string, fi os.FileInfo, err error) error {
